@@ -2061,6 +2061,10 @@ struct KindStats {
   attempted: usize,
   applied: usize,
   discarded: BTreeMap<String, usize>,
+  /// Parenthesise / WrapInBlock instances on a syntactically valid program whose result has syntax errors:
+  /// (description, original modules, rewritten modules).  Wrapping a complete expression can never be a
+  /// syntax error, so these are verdict flips (accepted or type-rejected -> unparseable), not rewriter noise.
+  broke_syntax: Vec<Value>,
 }
 
 fn delta(old: &BTreeMap<String, String>, new: &BTreeMap<String, String>) -> Value {
@@ -2129,6 +2133,9 @@ fn try_site(
   };
   if next.syntax_errors > 0 {
     *stats.discarded.entry("syntax-after".into()).or_default() += 1;
+    if a.syntax_errors == 0 && (KINDS[kind] == "Parenthesise" || KINDS[kind] == "WrapInBlock") && stats.broke_syntax.len() < 5 {
+      stats.broke_syntax.push(json!({"kind": KINDS[kind], "site": desc, "before": a.texts, "after": applied.sources}));
+    }
     return None;
   }
   let want = expected_after(a, &applied);
@@ -2368,7 +2375,8 @@ pub fn main(args: &[String]) {
     .iter()
     .zip(stats.iter())
     .map(|(k, s)| json!({"kind": k, "found": s.found, "attempted": s.attempted, "applied": s.applied,
-                         "discarded": s.discarded.values().sum::<usize>(), "discard_reasons": s.discarded}))
+                         "discarded": s.discarded.values().sum::<usize>(), "discard_reasons": s.discarded,
+                         "broke_syntax": s.broke_syntax}))
     .collect();
   println!(
     "{}",
